@@ -1,4 +1,29 @@
 def run(ctx):
-    from . import finalize_proofs
+    import vlib.pyvc.prims as P
 
-    return finalize_proofs.run(ctx, "C11", lastcast=True, mask=False)
+    from ..contracts import floxmean as FM
+    from ..pyvc.run import add_to_ctx
+    from . import collapse_proofs, finalize_proofs
+
+    note = finalize_proofs.run(ctx, "C11", lastcast=True, mask=False)
+    n = 0
+    for c, callees, models in FM.all_floxmean():
+        orig = P.Prims.register_defaults
+
+        def reg(self, orig=orig, models=models):
+            orig(self)
+            models(self)
+
+        P.Prims.register_defaults = reg
+        try:
+            ex, obs = add_to_ctx(ctx, c, callees)
+        finally:
+            P.Prims.register_defaults = orig
+        n += len(obs)
+    note += (f" aggregate_flox.mean / nanmean (requested dtype floating / integer, fill given / not): {n} obligations: the division is admissible under NumPy's casting rule for the dtype of the sums "
+             "(no UFuncTypeError), the result keeps the requested dtype, floating: mean * count == sum, integer: the exact mean truncated towards zero; sums and counts over the same codes, data and size. ")
+    from ..pyvc import conformance
+
+    conformance.add_to_ctx(ctx, ["numpy.divide"])
+    note += collapse_proofs.run(ctx, "C11")
+    return note
